@@ -15,7 +15,7 @@ ENTRY = {
                       {"file": "data_source.go", "old": "ds.numberWrittenTicker = time.NewTicker(1 * time.Second)", "new": "ds.numberWrittenTicker = vTickAlways(1 * time.Second)"},
                       {"file": "data_source.go", "old": "ds.writingState.externalTriggerTicker = time.NewTicker(time.Second * 1)", "new": "ds.writingState.externalTriggerTicker = vTickAlways(time.Second * 1)"},
                       {"file": "data_source.go", "old": "ds.writingState.dataDropTicker = time.NewTicker(time.Second * 10)", "new": "ds.writingState.dataDropTicker = vTickAlways(time.Second * 10)"}],
-        "quick": T(16, 120), "thorough": T(16, 900),
+        "quick": T(16, 180), "thorough": T(16, 900),
         "rule": "one execution = one complete interleaving (preemption-bounded, all select alternatives) of the scenario's threads in a -race build; the race detector's log is read "
                 "after every execution and every report whose two accesses are both in repository code is a violation (class = the unordered pair of top frames); "
                 "non-trivial = at least one preemption",
